@@ -106,22 +106,94 @@ type c31Spec struct {
 	gap       bool
 	redeliver bool
 	wchange   bool
+
+	// Bookkeeping used only to key a mismatch precisely (never to decide whether it is one):
+	// what the known single-height eviction (evict exactly height-window from cache and store,
+	// lastHeight = last delivered height, reload-then-trim on start) would answer.
+	refCache      map[uint64]bool
+	refStore      map[uint64]bool
+	refLast       uint64
+	refHas        bool
+	opIdx         int
+	lastNotifyIdx map[uint64]int  // op index of the last notification per height
+	lateDelivery  map[uint64]bool // the last notification of this height came when it was already below the window
+	lastWChange   int             // op index of the last restart that changed the window (-1: none)
 }
 
-func (s *c31Spec) suffix() string {
-	switch {
-	case s.redeliver:
-		return "-after-redelivery"
-	case s.gap:
-		return "-after-gap"
-	case s.wchange:
-		return "-after-window-change"
+func (s *c31Spec) refNotify(h uint64) {
+	if h >= s.w {
+		delete(s.refCache, h-s.w)
+		delete(s.refStore, h-s.w)
 	}
-	return ""
+	s.refCache[h], s.refStore[h] = true, true
+	s.refLast, s.refHas = h, true
+}
+
+func (s *c31Spec) refRestart(w uint64) {
+	hs := make([]uint64, 0, len(s.refStore))
+	for h := range s.refStore {
+		hs = append(hs, h)
+	}
+	sort.Slice(hs, func(i, j int) bool { return hs[i] < hs[j] })
+	s.refCache, s.refHas = map[uint64]bool{}, false
+	for _, h := range hs {
+		if h >= w {
+			delete(s.refCache, h-w)
+		}
+		s.refCache[h] = true
+		s.refLast, s.refHas = h, true
+	}
+	if s.refHas && s.refLast > w {
+		for _, h := range hs {
+			if h < s.refLast-w {
+				delete(s.refStore, h)
+			}
+		}
+	}
+}
+
+// key of one mismatching answer. `kind` is latest|height|id|tx, hB the height of the block the
+// query is about, got/want the implementation's and the property's answer, ref the answer of the
+// known single-height eviction. Only an answer that is exactly the known defective one, on exactly
+// the inputs the defect explains, gets a known-finding key; everything else is keyed `unknown`.
+func (s *c31Spec) classify(kind string, hB uint64, got, want, ref, unknown string) string {
+	if got != ref {
+		return unknown
+	}
+	if kind == "latest" {
+		if s.refHas && s.any && s.refLast < s.maxH {
+			return "latest-ne-max-height-after-redelivery"
+		}
+		return unknown
+	}
+	if want != "nf" || got == "nf" || !s.any || hB > s.maxH || s.maxH-hB < s.w {
+		return unknown // not "a block below the window is served"
+	}
+	last, ok := s.lastNotifyIdx[hB]
+	if !ok {
+		return unknown
+	}
+	switch {
+	case s.lateDelivery[hB]:
+		return "stale-block-below-window-served-after-late-delivery"
+	case s.lastWChange > last:
+		return "stale-block-below-window-served-after-window-change"
+	}
+	if i, ok := s.lastNotifyIdx[hB+s.w]; !ok || i < last {
+		return "stale-block-below-window-served-after-gap" // height hB+window was skipped
+	}
+	return unknown
 }
 
 func (s *c31Spec) inWindow(h uint64) bool {
 	return s.any && h <= s.maxH && s.maxH-h < s.w && h >= s.floor
+}
+
+// inside the current window but below the floor: the block was dropped legitimately under an
+// earlier, smaller window; after the window grew again the property neither requires nor forbids
+// serving it (only a same-window restart must not change the answer)
+func (s *c31Spec) dontCare(h uint64) bool {
+	return s.any && h <= s.maxH && s.maxH-h < s.w && h < s.floor
 }
 
 func (s *c31Spec) bump() {
@@ -206,54 +278,84 @@ func TestVerifC31(t *testing.T) {
 		it.Release()
 		return fmt.Sprintf("L=%s H:%s B:%s T:%s D:%s", a.latest, strings.Join(hs, ","), strings.Join(bs, ","), strings.Join(ts, ","), strings.Join(ds, ",")), a
 	}
+	// answers over the universe when exactly the heights in `in` are served and `latest` is the tip
+	expected := func(in func(uint64) bool, hasLatest bool, latestH uint64) answers {
+		e := answers{latest: "nf", byH: map[uint64]string{}, byID: map[string]string{}, tx: map[int]string{}}
+		if hasLatest && in(latestH) {
+			if n, ok := spec.byHeight[latestH]; ok {
+				e.latest = n
+			}
+		}
+		for _, h := range heights {
+			e.byH[h] = "nf"
+			if n, ok := spec.byHeight[h]; ok && in(h) {
+				e.byH[h] = n
+			}
+		}
+		for _, n := range blocks {
+			e.byID[n] = "nf"
+			h := env.blocks[n].Block.Hght
+			if spec.byHeight[h] == n && in(h) {
+				e.byID[n] = n
+			}
+		}
+		for i := 0; i < c31NTxs; i++ {
+			e.tx[i] = "nf"
+			if n, ok := spec.txBlock[i]; ok {
+				b := env.blocks[n]
+				if in(b.Block.Hght) {
+					for j, tx := range b.Block.Txs {
+						if env.txIdx[tx.GetID()] == i {
+							e.tx[i] = fmt.Sprintf("%d.%d.%d", i, b.Block.Tmstmp, b.ExecutionResults.Results[j].Fee)
+						}
+					}
+				}
+			}
+		}
+		return e
+	}
+	type query1 struct {
+		kind, what string
+		hB         uint64
+		get        func(a answers) string
+	}
+	allQueries := func() []query1 {
+		qs := []query1{{"latest", "GetLatestBlock", 0, func(a answers) string { return a.latest }}}
+		for _, h := range heights {
+			h := h
+			qs = append(qs, query1{"height", fmt.Sprintf("GetBlockByHeight(%d)", h), h, func(a answers) string { return a.byH[h] }})
+		}
+		for _, n := range blocks {
+			n := n
+			qs = append(qs, query1{"id", "GetBlock(" + n + ")", env.blocks[n].Block.Hght, func(a answers) string { return a.byID[n] }})
+		}
+		for i := 0; i < c31NTxs; i++ {
+			i := i
+			var hB uint64
+			if n, ok := spec.txBlock[i]; ok {
+				hB = env.blocks[n].Block.Hght
+			}
+			qs = append(qs, query1{"tx", fmt.Sprintf("GetTransaction(%d)", i), hB, func(a answers) string { return a.tx[i] }})
+		}
+		return qs
+	}
+	wantNow := func() answers { return expected(spec.inWindow, spec.any, spec.maxH) }
+	refNow := func() answers {
+		return expected(func(h uint64) bool { return spec.refCache[h] }, spec.refHas, spec.refLast)
+	}
 	// the property's statement evaluated on the answers
 	oracle := func(op string, a answers) {
 		if spec == nil || !spec.coherent {
 			return
 		}
-		bad := func(what, got, want string) {
-			r.Violation("answers-differ-from-window-spec"+spec.suffix(), "%s: got %s want %s (window %d, highest %d; seq %d, %s)", what, got, want, spec.w, spec.maxH, seq, op)
-		}
-		wantLatest := "nf"
-		if spec.any {
-			wantLatest = spec.byHeight[spec.maxH]
-		}
-		if a.latest != wantLatest {
-			bad("GetLatestBlock", a.latest, wantLatest)
-		}
-		for _, h := range heights {
-			want := "nf"
-			if n, ok := spec.byHeight[h]; ok && spec.inWindow(h) {
-				want = n
+		want, ref := wantNow(), refNow()
+		for _, q := range allQueries() {
+			if q.kind != "latest" && spec.dontCare(q.hB) {
+				continue
 			}
-			if a.byH[h] != want {
-				bad(fmt.Sprintf("GetBlockByHeight(%d)", h), a.byH[h], want)
-			}
-		}
-		for _, n := range blocks {
-			want := "nf"
-			h := env.blocks[n].Block.Hght
-			if spec.byHeight[h] == n && spec.inWindow(h) {
-				want = n
-			}
-			if a.byID[n] != want {
-				bad("GetBlock("+n+")", a.byID[n], want)
-			}
-		}
-		for i := 0; i < c31NTxs; i++ {
-			want := "nf"
-			if n, ok := spec.txBlock[i]; ok {
-				b := env.blocks[n]
-				if spec.inWindow(b.Block.Hght) {
-					for j, tx := range b.Block.Txs {
-						if env.txIdx[tx.GetID()] == i {
-							want = fmt.Sprintf("%d.%d.%d", i, b.Block.Tmstmp, b.ExecutionResults.Results[j].Fee)
-						}
-					}
-				}
-			}
-			if a.tx[i] != want {
-				bad(fmt.Sprintf("GetTransaction(%d)", i), a.tx[i], want)
+			if got := q.get(a); got != q.get(want) {
+				key := spec.classify(q.kind, q.hB, got, q.get(want), q.get(ref), "answers-differ-from-window-spec")
+				r.Violation(key, "%s: got %s want %s (window %d, highest %d; seq %d, %s)", q.what, got, q.get(want), spec.w, spec.maxH, seq, op)
 			}
 		}
 	}
@@ -274,7 +376,8 @@ func TestVerifC31(t *testing.T) {
 			seq++
 			dir = t.TempDir()
 			heights, blocks = []uint64{0, 1, 2}, nil
-			spec = &c31Spec{w: w, byHeight: map[uint64]string{}, txBlock: map[int]string{}, coherent: true}
+			spec = &c31Spec{w: w, byHeight: map[uint64]string{}, txBlock: map[int]string{}, coherent: true,
+				refCache: map[uint64]bool{}, refStore: map[uint64]bool{}, lastNotifyIdx: map[uint64]int{}, lateDelivery: map[uint64]bool{}, lastWChange: -1}
 			idx, err = NewIndexer(dir, env.parser, w)
 			if err != nil {
 				idx = nil
@@ -299,6 +402,20 @@ func TestVerifC31(t *testing.T) {
 				continue
 			}
 			_, before := query()
+			var wantB, refB answers
+			var keyB map[string]string // known-finding key of every answer that was already wrong before
+			if spec.coherent {
+				wantB, refB = wantNow(), refNow()
+				keyB = map[string]string{}
+				for _, q := range allQueries() {
+					if q.kind != "latest" && spec.dontCare(q.hB) {
+						continue
+					}
+					if got := q.get(before); got != q.get(wantB) {
+						keyB[q.what] = spec.classify(q.kind, q.hB, got, q.get(wantB), q.get(refB), "restart-changes-answers")
+					}
+				}
+			}
 			if err := idx.Close(); err != nil {
 				t.Fatal(err)
 			}
@@ -309,35 +426,33 @@ func TestVerifC31(t *testing.T) {
 			out, a := query()
 			r.Emit(l, "ok "+out)
 			r.Count("restart")
+			spec.opIdx++
 			sameWindow := w == spec.w
 			if !sameWindow {
 				spec.wchange = true
+				spec.lastWChange = spec.opIdx
 				spec.w = w
 				spec.bump()
 			}
+			spec.refRestart(w)
 			if spec.coherent && sameWindow {
 				// a restart does not change any answer
-				diff := ""
-				if before.latest != a.latest {
-					diff = "GetLatestBlock " + before.latest + " -> " + a.latest
-				}
-				for _, h := range heights {
-					if before.byH[h] != a.byH[h] && diff == "" {
-						diff = fmt.Sprintf("GetBlockByHeight(%d) %s -> %s", h, before.byH[h], a.byH[h])
+				want, ref := wantNow(), refNow()
+				for _, q := range allQueries() {
+					if q.get(before) == q.get(a) {
+						continue
 					}
-				}
-				for _, n := range blocks {
-					if before.byID[n] != a.byID[n] && diff == "" {
-						diff = fmt.Sprintf("GetBlock(%s) %s -> %s", n, before.byID[n], a.byID[n])
+					key, wrongBefore := keyB[q.what]
+					if !wrongBefore && q.kind != "latest" && spec.dontCare(q.hB) {
+						key = "restart-changes-answers"
+					} else if !wrongBefore {
+						// the answer was right before the restart and is wrong now
+						key = spec.classify(q.kind, q.hB, q.get(a), q.get(want), q.get(ref), "restart-changes-answers")
 					}
-				}
-				for i := 0; i < c31NTxs; i++ {
-					if before.tx[i] != a.tx[i] && diff == "" {
-						diff = fmt.Sprintf("GetTransaction(%d) %s -> %s", i, before.tx[i], a.tx[i])
+					if key == "answers-differ-from-window-spec" {
+						key = "restart-changes-answers"
 					}
-				}
-				if diff != "" {
-					r.Violation("restart-changes-answers"+spec.suffix(), "%s (window %d; seq %d, %s)", diff, w, seq, l)
+					r.Violation(key, "restart changed %s: %s -> %s (window %d; seq %d, %s)", q.what, q.get(before), q.get(a), w, seq, l)
 				}
 			}
 			oracle(l, a)
@@ -417,6 +532,10 @@ func TestVerifC31(t *testing.T) {
 				spec.redeliver = true
 				r.Count("notify-older")
 			}
+			spec.opIdx++
+			spec.lastNotifyIdx[h] = spec.opIdx
+			spec.lateDelivery[h] = spec.any && h <= spec.maxH && spec.maxH-h >= spec.w
+			spec.refNotify(h)
 			spec.byHeight[h] = name
 			if !spec.any || h > spec.maxH {
 				spec.maxH = h
